@@ -16,7 +16,7 @@ ANCHORS = ["pyoma2.functions.ssi:SSI_multi_setup", "pyoma2.functions.gen:pre_mul
 REQUIRED_MONITORS = ["shared-object history", "truth@PreGER.cov_mm", "truth@PreGER.dat", "truth@SSI_multi_setup", "gain-metamorphic", "split@pre_multisetup(direct)",
                      "split@pre_multisetup(every call made by MultiSetup_PreGER)"]
 ALL_STATES = ["refs listed out of order", "refs differ between setups", "complex shapes", "real shapes", "br=nu+1", "br>nu+1"]
-REQUIRED_STATES = ["refs listed out of order", "refs differ between setups", "br=nu+1"]
+REQUIRED_STATES = ["refs listed out of order", "refs differ between setups", "br=nu+1", "equal record lengths, different channel counts"]
 RULE = ("A: random global systems (1..5 modes), 2..4 setups, 1..3 references anywhere/any order, 1..4 roving, gains 10^U(-2,2), own record "
         "length and initial condition per setup, br >= nu_ref+1, both methods, through MultiSetup_PreGER+SSIcov_MS/SSIdat_MS and "
         "ssi.SSI_multi_setup; non-trivial = guards hold and >= 2 setups with different gains; B: EVERY channel count 2..6 and EVERY ordered "
@@ -199,7 +199,10 @@ def run_split(ctx, case, rng):
         # second setup: random layout with the same number of references
         n2 = int(rng.integers(k + 1, 7))
         refs2 = [int(x) for x in rng.permutation(n2)[:k]]
-        base2 = 1000.0 * np.arange(n2)[None, :] + np.arange(T + 7)[:, None] + 0.5
+        T2 = T if rng.random() < 0.5 else T + 7  # equal record lengths with different channel counts are legal too
+        base2 = 1000.0 * np.arange(n2)[None, :] + np.arange(T2)[:, None] + 0.5
+        if T2 == T and n2 != n:
+            ctx.state("equal record lengths, different channel counts")
         Y = G_.pre_multisetup([base.copy(), base2.copy()], [list(refs), refs2])
         check_split(ctx, "split@pre_multisetup(direct)", [base, base2], [refs, refs2], Y, "split")
         # identify by value: every sample names its channel and time
@@ -215,6 +218,9 @@ def run_split(ctx, case, rng):
             ms.decimate_data(q=2)
             ms.detrend_data()
             ms.filter_data(Wn=5.0, order=2, btype="lowpass")
+            # after the steps each setup still holds ITS channels: shapes of the split follow the datasets' channel counts
+            ctx.check([d["ref"].shape[0] + d["mov"].shape[0] for d in ms.data] == [n, n2], "split:channels_moved_between_setups",
+                      lambda: f"after preprocessing the setups hold {[d['ref'].shape[0] + d['mov'].shape[0] for d in ms.data]} channels, datasets have {[n, n2]}")
             ms.rollback()
             ctx.check(ms.data is calls[-1][2], "split:rollback_not_from_split", "data after rollback is not the output of a fresh split")
         ctx.check(len(calls) >= 5, "split:preprocessing_skips_split", lambda: f"only {len(calls)} splits for init+decimate+detrend+filter+rollback")
